@@ -290,6 +290,8 @@ def check_change_identity(ctx, f):
         pv = h.provenance(t["args"][1], through_calls=True)
         names = {(norm_fn(c) or "").split("::")[-1] for c in pv.callees()}
         set_filter = any(any((norm_fn(tt.get("fn")) or "").endswith(("HashSet::insert", "BTreeSet::insert")) for _, tt in f.calls(f.fns[cl])) for cl in pv.closures if cl in f.fns)
-        ok = set_filter or "dedup" in names or any("BTreeSet" in (norm_fn(c) or "") or "HashSet" in (norm_fn(c) or "") for c in pv.callees() if (norm_fn(c) or "").endswith(("from_iter", "collect")))
+        # a set collection: the operand's own type, or a collect / from_iter into a set on the way
+        set_typed = any("BTreeSet<" in ty or "HashSet<" in ty for ty in t.get("argtys", [])[1:2]) or "BTreeSet<" in (t.get("fnargs") or "") or "HashSet<" in (t.get("fnargs") or "")
+        ok = set_filter or set_typed or "dedup" in names
         ctx.ob("R5-set", k, ok, t["sp"], "de-duplicated before the bundle rows are built" if ok else
                "every listed hash becomes a change row of the bundle, repeated ones too, while each op goes to one row only: bundle([h, h]) cannot be unbundled (MissingOps)")
